@@ -28,6 +28,7 @@ type c05Case struct {
 	Base    c07Case `json:"base"`  // program, request, one cache subset (Subsets[0]) and debris
 	Picks   []int   `json:"picks"` // which pending command completes at each step (mod #pending); filled while running
 	Exhaust bool    `json:"-"`
+	Split   bool    `json:"split,omitempty"` // messages queue up between the completion of a command and their handling
 }
 
 type picker func(n int) int
@@ -98,6 +99,9 @@ func checkC05(c c05Case, pick picker, picks *[]int) (*ev.Failure, c05Stats) {
 	quit := false
 	var quitErr error
 	bound := 400 + 200*len(stagesOfGraph)*int(b.Head/b.Seg+1)
+	if c.Split {
+		bound *= 2
+	}
 
 	safeUpdate := func(msg loop.Msg) (cmd loop.Cmd, f *ev.Failure) {
 		defer func() {
@@ -106,6 +110,151 @@ func checkC05(c c05Case, pick picker, picks *[]int) (*ev.Failure, c05Stats) {
 			}
 		}()
 		return o.Sched.Update(msg), nil
+	}
+
+	// Split mode models the real loop exactly: every command runs on its own goroutine and sends its message to a
+	// FIFO channel; the loop handles the messages in arrival order. A step is then either "a pending command
+	// completes" (its message joins the queue) or "the oldest message is handled". Without Split a command's
+	// message is handled as soon as the command completes.
+	var queue []loop.Msg
+	deliver := func(msg loop.Msg) *ev.Failure {
+		switch m := msg.(type) {
+		case loop.BatchMsg:
+			for _, cmd := range m {
+				add(cmd)
+			}
+			return nil
+		case loop.SequenceMsg:
+			for _, cmd := range m {
+				if cmd == nil {
+					continue
+				}
+				sub := cmd()
+				if c.Split {
+					queue = append(queue, sub)
+					continue
+				}
+				cmd2, f := safeUpdate(sub)
+				if f != nil {
+					return f
+				}
+				add(cmd2)
+			}
+			return nil
+		case loop.QuitMsg:
+			quit = true
+			quitErr = m.VerifErr()
+			return nil
+		case nil:
+			return nil
+		}
+		switch m := msg.(type) {
+		case work.MsgJobFailed:
+			return ev.Failf("job-failed", "job %+v failed: %v\nstates:\n%s", m.Unit, m.Error, o.Sched.Stages.StatesString())
+		case work.MsgJobSucceeded:
+			if lastEvent == "merge" {
+				st.mergeBetweenJobs = true
+			}
+			lastEvent = "job"
+		case stage.MsgMergeFailed:
+			return ev.Failf("merge-failed", "merge of %+v failed: %v\nstates:\n%s", m.Unit, m.Error, o.Sched.Stages.StatesString())
+		case stage.MsgMergeFinished:
+			st.merges++
+			key := fmt.Sprintf("%d/%d", m.Unit.Stage, m.Unit.Segment)
+			if mergedSeen[key] {
+				return ev.Failf("merge/repeated", "segment %d of stage %d merged twice", m.Unit.Segment, m.Unit.Stage)
+			}
+			mergedSeen[key] = true
+			if prev, ok := lastMerged[m.Unit.Stage]; ok && m.Unit.Segment <= prev {
+				return ev.Failf("merge/out-of-order", "stage %d merged segment %d after segment %d", m.Unit.Stage, m.Unit.Segment, prev)
+			}
+			lastMerged[m.Unit.Stage] = m.Unit.Segment
+			lastEvent = "merge"
+		}
+		if _, isMiss := msg.(interface{ isMiss() }); isMiss {
+			walkerMisses++
+		}
+		if fmt.Sprintf("%T", msg) == "execout.MsgFileNotPresent" {
+			walkerMisses++
+		}
+		cmd, f := safeUpdate(msg)
+		if f != nil {
+			return f
+		}
+		add(cmd)
+		// I3: a unit never leaves Completed
+		states := o.Sched.Stages.StatesString()
+		st.states[states] = true
+		for si, row := range strings.Split(strings.TrimSpace(states), "\n") {
+			cells := strings.TrimPrefix(strings.TrimPrefix(row, "S:"), "M:")
+			for gi, ch := range cells {
+				key := fmt.Sprintf("%d/%d", si, gi)
+				if ch == 'C' {
+					completed[key] = true
+				} else if completed[key] {
+					return ev.Failf("invalid-state/left-completed", "unit (stage row %d, segment column %d) left the Completed state (now %c)\nstates:\n%s", si, gi, ch, states)
+				}
+			}
+		}
+		return nil
+	}
+
+	runCmd := func(idx int) *ev.Failure {
+		p := pending[idx]
+		pending = append(pending[:idx], pending[idx+1:]...)
+
+		heavy := p.Kind == "Work" || p.Kind == "CmdTryMerge" || p.Kind == "CmdDownloadCurrentSegment" || p.Kind == "cmdShutdownWhenComplete"
+		if heavy {
+			if err := o.Sched.Stages.WaitAsyncWork(); err != nil {
+				return ev.Failf("async-work-error", "asynchronous snapshot write/partial deletion failed: %v", err)
+			}
+		}
+		jobsBefore := len(o.JobStarts)
+		var msg loop.Msg
+		func() {
+			defer func() {
+				if r := recover(); r != nil {
+					msg = nil
+					quitErr = fmt.Errorf("command %s panicked: %v", p.Kind, r)
+				}
+			}()
+			msg = p.Cmd()
+		}()
+		if quitErr != nil {
+			return ev.Failf("invalid-state/panic-in-command", "%v\nstates:\n%s", quitErr, o.Sched.Stages.StatesString())
+		}
+		st.steps++
+		// I2: a job that just started must have found the stores it loads
+		if len(o.JobStarts) > jobsBefore {
+			js := o.JobStarts[len(o.JobStarts)-1]
+			st.jobs++
+			for si := 0; si < js.Unit.Stage && si < len(stagesOfGraph); si++ {
+				layer := stagesOfGraph[si].LastLayer()
+				if !layer.IsStoreLayer() {
+					continue
+				}
+				for _, mod := range layer {
+					init := o.Graph.ModulesInitBlocks()[mod.Name]
+					segStart := uint64(js.Unit.Segment) * b.Seg
+					if init >= segStart {
+						continue
+					}
+					ok, _ := o.StoreConfigs[mod.Name].ExistsFullKV(o.Ctx, segStart)
+					if !ok {
+						return ev.Failf("safety/job-before-dependency", "job for stage %d segment %d started but store %s (stage %d, initial block %d) has no complete snapshot at block %d\nstates:\n%s", js.Unit.Stage, js.Unit.Segment, mod.Name, si, init, segStart, o.Sched.Stages.StatesString())
+					}
+				}
+			}
+			if prev, ok := lastJobSeg[js.Unit.Stage]; ok && js.Unit.Segment < prev {
+				st.outOfOrder = true
+			}
+			lastJobSeg[js.Unit.Stage] = js.Unit.Segment
+		}
+		if c.Split {
+			queue = append(queue, msg)
+			return nil
+		}
+		return deliver(msg)
 	}
 
 	for step := 0; !quit; step++ {
@@ -132,6 +281,24 @@ func checkC05(c c05Case, pick picker, picks *[]int) (*ev.Failure, c05Stats) {
 			}
 			choosable = append(choosable, i)
 		}
+		if len(queue) > 0 {
+			// one more option: the loop handles the oldest message
+			k := pick(len(choosable) + 1)
+			*picks = append(*picks, k)
+			if k%(len(choosable)+1) == len(choosable) {
+				msg := queue[0]
+				queue = queue[1:]
+				if f := deliver(msg); f != nil {
+					return f, st
+				}
+				continue
+			}
+			idx := choosable[k%(len(choosable)+1)]
+			if f := runCmd(idx); f != nil {
+				return f, st
+			}
+			continue
+		}
 		if len(choosable) == 0 {
 			if walkerIdx >= 0 {
 				return ev.Failf("liveness/waits-for-output-never-written", "only the cached-output walker is pending and its file does not exist: nothing will ever write it\nstates:\n%s", o.Sched.Stages.StatesString()), st
@@ -140,130 +307,8 @@ func checkC05(c c05Case, pick picker, picks *[]int) (*ev.Failure, c05Stats) {
 		}
 		k := pick(len(choosable))
 		*picks = append(*picks, k)
-		idx := choosable[k%len(choosable)]
-		p := pending[idx]
-		pending = append(pending[:idx], pending[idx+1:]...)
-
-		heavy := p.Kind == "Work" || p.Kind == "CmdTryMerge" || p.Kind == "CmdDownloadCurrentSegment" || p.Kind == "cmdShutdownWhenComplete"
-		if heavy {
-			if err := o.Sched.Stages.WaitAsyncWork(); err != nil {
-				return ev.Failf("async-work-error", "asynchronous snapshot write/partial deletion failed: %v", err), st
-			}
-		}
-		jobsBefore := len(o.JobStarts)
-		var msg loop.Msg
-		func() {
-			defer func() {
-				if r := recover(); r != nil {
-					msg = nil
-					quitErr = fmt.Errorf("command %s panicked: %v", p.Kind, r)
-				}
-			}()
-			msg = p.Cmd()
-		}()
-		if quitErr != nil {
-			return ev.Failf("invalid-state/panic-in-command", "%v\nstates:\n%s", quitErr, o.Sched.Stages.StatesString()), st
-		}
-		st.steps++
-		// I2: a job that just started must have found the stores it loads
-		if len(o.JobStarts) > jobsBefore {
-			js := o.JobStarts[len(o.JobStarts)-1]
-			st.jobs++
-			for si := 0; si < js.Unit.Stage && si < len(stagesOfGraph); si++ {
-				layer := stagesOfGraph[si].LastLayer()
-				if !layer.IsStoreLayer() {
-					continue
-				}
-				for _, mod := range layer {
-					init := o.Graph.ModulesInitBlocks()[mod.Name]
-					segStart := uint64(js.Unit.Segment) * b.Seg
-					if init >= segStart {
-						continue
-					}
-					ok, _ := o.StoreConfigs[mod.Name].ExistsFullKV(o.Ctx, segStart)
-					if !ok {
-						return ev.Failf("safety/job-before-dependency", "job for stage %d segment %d started but store %s (stage %d, initial block %d) has no complete snapshot at block %d\nstates:\n%s", js.Unit.Stage, js.Unit.Segment, mod.Name, si, init, segStart, o.Sched.Stages.StatesString()), st
-					}
-				}
-			}
-			if prev, ok := lastJobSeg[js.Unit.Stage]; ok && js.Unit.Segment < prev {
-				st.outOfOrder = true
-			}
-			lastJobSeg[js.Unit.Stage] = js.Unit.Segment
-		}
-		switch m := msg.(type) {
-		case loop.BatchMsg:
-			for _, cmd := range m {
-				add(cmd)
-			}
-			continue
-		case loop.SequenceMsg:
-			for _, cmd := range m {
-				if cmd == nil {
-					continue
-				}
-				sub := cmd()
-				cmd2, f := safeUpdate(sub)
-				if f != nil {
-					return f, st
-				}
-				add(cmd2)
-			}
-			continue
-		case loop.QuitMsg:
-			quit = true
-			quitErr = m.VerifErr()
-			continue
-		case nil:
-			continue
-		}
-		switch m := msg.(type) {
-		case work.MsgJobFailed:
-			return ev.Failf("job-failed", "job %+v failed: %v\nstates:\n%s", m.Unit, m.Error, o.Sched.Stages.StatesString()), st
-		case work.MsgJobSucceeded:
-			if lastEvent == "merge" {
-				st.mergeBetweenJobs = true
-			}
-			lastEvent = "job"
-		case stage.MsgMergeFailed:
-			return ev.Failf("merge-failed", "merge of %+v failed: %v\nstates:\n%s", m.Unit, m.Error, o.Sched.Stages.StatesString()), st
-		case stage.MsgMergeFinished:
-			st.merges++
-			key := fmt.Sprintf("%d/%d", m.Unit.Stage, m.Unit.Segment)
-			if mergedSeen[key] {
-				return ev.Failf("merge/repeated", "segment %d of stage %d merged twice", m.Unit.Segment, m.Unit.Stage), st
-			}
-			mergedSeen[key] = true
-			if prev, ok := lastMerged[m.Unit.Stage]; ok && m.Unit.Segment <= prev {
-				return ev.Failf("merge/out-of-order", "stage %d merged segment %d after segment %d", m.Unit.Stage, m.Unit.Segment, prev), st
-			}
-			lastMerged[m.Unit.Stage] = m.Unit.Segment
-			lastEvent = "merge"
-		}
-		if _, isMiss := msg.(interface{ isMiss() }); isMiss {
-			walkerMisses++
-		}
-		if fmt.Sprintf("%T", msg) == "execout.MsgFileNotPresent" {
-			walkerMisses++
-		}
-		cmd, f := safeUpdate(msg)
-		if f != nil {
+		if f := runCmd(choosable[k%len(choosable)]); f != nil {
 			return f, st
-		}
-		add(cmd)
-		// I3: a unit never leaves Completed
-		states := o.Sched.Stages.StatesString()
-		st.states[states] = true
-		for si, row := range strings.Split(strings.TrimSpace(states), "\n") {
-			cells := strings.TrimPrefix(strings.TrimPrefix(row, "S:"), "M:")
-			for gi, ch := range cells {
-				key := fmt.Sprintf("%d/%d", si, gi)
-				if ch == 'C' {
-					completed[key] = true
-				} else if completed[key] {
-					return ev.Failf("invalid-state/left-completed", "unit (stage row %d, segment column %d) left the Completed state (now %c)\nstates:\n%s", si, gi, ch, states), st
-				}
-			}
 		}
 	}
 	if quitErr != nil {
@@ -363,10 +408,10 @@ func genC05(t *rapid.T) c05Case {
 	base.Debris = nil
 	if rapid.IntRange(0, 1).Draw(t, "chain") == 0 {
 		// deep store chains: 2..3 store stages below the mapper, a production request starting a few segments in
-		base.Prog = pgen.GenChain(t, rapid.IntRange(2, 3).Draw(t, "chaindepth"), []uint64{0, 0, 0, 1, base.Seg})
+		base.Prog = pgen.GenChain(t, rapid.IntRange(2, 3).Draw(t, "chaindepth"), []uint64{0, 0, 0, 1, base.Seg}, 2*base.Seg, 3*base.Seg, 3*base.Seg+1, 4*base.Seg+1)
 		init := base.Prog.Mod("out").Initial
 		base.Run = runSpec{Prod: rapid.IntRange(0, 3).Draw(t, "chainprod") > 0, Output: "out", Final: base.Head}
-		base.Run.Start = init + rapid.Uint64Range(0, 3*base.Seg).Draw(t, "chainstart")
+		base.Run.Start = init + rapid.Uint64Range(0, 5*base.Seg).Draw(t, "chainstart")
 		base.Run.Stop = base.Run.Start + rapid.Uint64Range(1, 2*base.Seg).Draw(t, "chainlen")
 		if base.Run.Stop > base.Head {
 			base.Run.Stop = base.Head
@@ -376,12 +421,12 @@ func genC05(t *rapid.T) c05Case {
 		}
 	}
 	base.Run.Workers = rapid.IntRange(1, 3).Draw(t, "c05workers")
-	return c05Case{Base: base}
+	return c05Case{Base: base, Split: rapid.Bool().Draw(t, "split")}
 }
 
 func TestC05(t *testing.T) {
 	r := ev.Get("C05", "Schedules")
-	r.Rule = "rapid: generated program with 1..3 stages and 2..5 segments, dev or production request, 1..3 workers, initial cache = a subset of the files of a complete run plus harvested partials (or empty); the real Scheduler/Stages/WorkerPool/Walker assembled as BuildParallelProcessor does and driven by a single-threaded loop in which rapid draws which pending command (job, merge, cached-output download, schedule/try-merge messages) completes next, asynchronous writes quiesced before each heavy command; invariants after every step: no panic/invalid transition, a started job finds every lower-stage store snapshot at its segment start, merges per stage consecutive and never repeated, no unit leaves Completed, termination within a step bound, never stalled; at quit: no error, FinalStoreMap(hand-off) typed-equal to the sequential execution, streamed outputs equal to it, every requested output file written; non-trivial = >=2 stages x >=2 segments and a job completed out of segment order or a merge completed between two job completions"
+	r.Rule = "rapid: generated program with 1..3 stages and 2..5 segments, dev or production request, 1..3 workers, initial cache = a subset of the files of a complete run plus harvested partials (or empty); the real Scheduler/Stages/WorkerPool/Walker assembled as BuildParallelProcessor does and driven by a single-threaded loop in which rapid draws which pending command (job, merge, cached-output download, schedule/try-merge messages) completes next (in half of the cases the completed command's message joins a FIFO queue, as in the real loop, and handling the oldest message is one more choice at each step), asynchronous writes quiesced before each heavy command; invariants after every step: no panic/invalid transition, a started job finds every lower-stage store snapshot at its segment start, merges per stage consecutive and never repeated, no unit leaves Completed, termination within a step bound, never stalled; at quit: no error, FinalStoreMap(hand-off) typed-equal to the sequential execution, streamed outputs equal to it, every requested output file written; non-trivial = >=2 stages x >=2 segments and a job completed out of segment order or a merge completed between two job completions"
 	rapid.Check(t, func(rt *rapid.T) {
 		c := genC05(rt)
 		var picks []int
@@ -397,6 +442,9 @@ func TestC05(t *testing.T) {
 		}
 		if len(c.Base.Subsets) > 0 {
 			cl = append(cl, "warm-cache")
+		}
+		if c.Split {
+			cl = append(cl, "messages-queued-fifo")
 		}
 		r.Count("steps", st.steps)
 		r.Count("distinct-scheduler-states", len(st.states))
